@@ -24,15 +24,15 @@ class FnCtx(object):
       cls._cache[k] = FnCtx(fn)
     return cls._cache[k]
 
-  def expand_reads(self, expr, at=None, depth=0, seen=None):
-    """Names / self.attrs the value of expr may derive from, following local
+  def expand_reads(self, expr, at=None, depth=0, seen=None, owners=('self',)):
+    """Names / owner.attrs the value of expr may derive from, following local
     definitions that reach the use."""
     if at is None:
       at = self.cfg.node_containing(expr)
     out = set()
     seen = seen if seen is not None else set()
-    for r in names_read(expr):
-      if r.startswith('self.') or r == 'self':
+    for r in owner_reads(expr, owners):
+      if '.' in r or r in owners:
         out.add(r)
         continue
       if at is None:
@@ -57,17 +57,35 @@ class FnCtx(object):
         elif n.kind == 'stmt' and isinstance(st, ast.AugAssign):
           val = st.value
           out |= self.expand_reads(ast.Name(id=r, ctx=ast.Load()), d,
-                                   depth + 1, seen)
+                                   depth + 1, seen, owners)
         elif n.kind == 'iter':
           val = st.iter
         elif n.kind == 'with':
           for item in st.items:
             val = item.context_expr
         if val is not None:
-          out |= self.expand_reads(val, d, depth + 1, seen)
+          out |= self.expand_reads(val, d, depth + 1, seen, owners)
         else:
           out.add(r)
     return out
+
+
+def owner_reads(expr, owners=('self',)):
+  """Name ids read in expr, with `owner.attr` reported as one item for every
+  owner name in `owners`."""
+  out = set()
+  if expr is None:
+    return out
+  skip = set()
+  for n in ast.walk(expr):
+    if (isinstance(n, ast.Attribute) and isinstance(n.value, ast.Name)
+        and n.value.id in owners):
+      out.add('%s.%s' % (n.value.id, n.attr))
+      skip.add(id(n.value))
+  for n in ast.walk(expr):
+    if isinstance(n, ast.Name) and id(n) not in skip:
+      out.add(n.id)
+  return out
 
 
 def class_attrs(cls, methods=('__init__', 'build')):
@@ -145,7 +163,7 @@ def check_forwarding(prog, res, fn, call, target, rule='W1', aliases=None,
                         else '<none>'))
       continue
     val = bound[p]
-    reads = ctx.expand_reads(val, at)
+    reads = ctx.expand_reads(val, at, owners=(owner,) if owner else ())
     want = {'%s.%s' % (owner, e) for e in exps} if owner else set(exps)
     if reads & want:
       res.ok(rule, key, fn.loc(call),
